@@ -38,19 +38,23 @@ var c16Reqs = []c16Req{
 	{"POST u", "POST", U, nil},
 	{"GET u A=1 no-cache", "GET", U, []string{"X-A", "1", "Cache-Control", "no-cache"}},
 	{"GET absent only-if-cached", "GET", "http://example.com/absent", []string{"Cache-Control", "only-if-cached"}},
+	// (from here on: used in the listed programs only, not in the all-pairs product)
+	{"GET u A=['',1] (an empty field line first)", "GET", U, []string{"X-A", "", "X-A", "1", "Accept-Encoding", "", "Accept-Encoding", "gzip"}},
 }
+
+const c16PairReqs = 6
 
 var c16States = []string{"empty", "fresh", "stale+swr", "stale+must-revalidate", "two-variants", "stale+swr bodiless", "stale, Last-Modified only"}
 
 // c16Programs: all unordered pairs (with repetition) and a fixed set of triples.
 func c16Programs() [][]int {
 	var ps [][]int
-	for i := 0; i < len(c16Reqs); i++ {
-		for j := i; j < len(c16Reqs); j++ {
+	for i := 0; i < c16PairReqs; i++ {
+		for j := i; j < c16PairReqs; j++ {
 			ps = append(ps, []int{i, j})
 		}
 	}
-	ps = append(ps, []int{5, 5, 0}, []int{0, 0, 0}, []int{0, 0, 3}, []int{0, 1, 4}, []int{0, 4, 4}, []int{0, 3, 3}, []int{0, 1, 3}, []int{0, 2, 4}, []int{0, 0, 1})
+	ps = append(ps, []int{5, 5, 0}, []int{0, 0, 0}, []int{0, 0, 3}, []int{0, 1, 4}, []int{0, 4, 4}, []int{0, 3, 3}, []int{0, 1, 3}, []int{0, 2, 4}, []int{0, 0, 1}, []int{6, 6}, []int{6, 0}, []int{6, 3})
 	return ps
 }
 
@@ -66,7 +70,7 @@ func c16Prologue(w *world.W, state string, backdate time.Duration) {
 		answer(w, mk("max-age=100000"))
 		w.Do(world.Req("GET", U, "X-A", "1"))
 	case "stale+swr":
-		answer(w, mk("max-age=5, stale-while-revalidate=100000"))
+		answer(w, mk("max-age=5, stale-while-revalidate=100000, stale-if-error=100000"))
 		w.Do(world.Req("GET", U, "X-A", "1"))
 	case "stale+swr bodiless":
 		r := mk("max-age=5, stale-while-revalidate=100000")
@@ -182,6 +186,9 @@ func c16OriginHandler(x *mc.X, state string, pt func(string)) world.Handler {
 				x.Trace[len(x.Trace)-1].Desc = map[bool]string{false: "200 new", true: "304 + new field"}[answer304]
 			} else {
 				answer304 = c.Seq%2 == 0
+				if c.Seq%5 == 4 { // free-running pass: some validations fail (the stale-if-error path runs next to the caller)
+					return o.Respond(c, RS{Status: 503}), nil
+				}
 			}
 		}
 		if answer304 {
@@ -302,13 +309,14 @@ func runC16(x *mc.X) {
 			x.Failf("response for another resource", "%s received a response minted for %s", who, tk.URL)
 		}
 		if r.req.method == "GET" && strings.Contains(strings.Join(tk.Header.Values("Vary"), ","), "X-A") {
-			want := ""
+			var wants []string
 			for i := 0; i+1 < len(r.req.hdr); i += 2 {
 				if r.req.hdr[i] == "X-A" {
-					want = r.req.hdr[i+1]
+					wants = append(wants, r.req.hdr[i+1])
 				}
 			}
-			if got := tk.ReqHdr.Get("X-A"); got != want {
+			want := strings.Join(wants, "\x00") // all field lines, in order
+			if got := strings.Join(tk.ReqHdr.Values("X-A"), "\x00"); got != want {
 				x.Failf("response for another variant", "%s (X-A=%s) received a response selected by X-A=%s", who, want, got)
 			}
 		}
